@@ -57,10 +57,11 @@ func KeyToPrivate(k key.Key) (*goecdsa.PrivateKey, error) {
 	privKey.D = new(big.Int).SetBytes(d)
 	privKey.PublicKey.X, privKey.PublicKey.Y = curve.ScalarBaseMult(d)
 
-	if x, _ := k.GetBytes(iana.EC2KeyParameterX); x != nil && !bytes.Equal(privKey.PublicKey.X.Bytes(), x) {
+	// coordinates may carry leading zero octets (RFC 9053 section 7.1.1), compare them as integers
+	if x, _ := k.GetBytes(iana.EC2KeyParameterX); x != nil && os2ip(x).Cmp(privKey.PublicKey.X) != 0 {
 		return nil, fmt.Errorf("cose/key/ecdsa: KeyToPrivate: parameter x mismatch")
 	}
-	if y, _ := k.GetBytes(iana.EC2KeyParameterY); y != nil && !bytes.Equal(privKey.PublicKey.Y.Bytes(), y) {
+	if y, _ := k.GetBytes(iana.EC2KeyParameterY); y != nil && os2ip(y).Cmp(privKey.PublicKey.Y) != 0 {
 		return nil, fmt.Errorf("cose/key/ecdsa: KeyToPrivate: parameter y mismatch")
 	}
 	return privKey, nil
@@ -102,9 +103,9 @@ func KeyFromPublic(pk *goecdsa.PublicKey) (key.Key, error) {
 		iana.KeyParameterKty:    iana.KeyTypeEC2,
 		iana.KeyParameterKid:    key.SumKid(pk.X.Bytes()), // default kid, can be set to other value.
 		iana.KeyParameterAlg:    alg,
-		iana.EC2KeyParameterCrv: crv,          // REQUIRED
-		iana.EC2KeyParameterX:   pk.X.Bytes(), // REQUIRED
-		iana.EC2KeyParameterY:   pk.Y.Bytes(), // REQUIRED
+		iana.EC2KeyParameterCrv: crv,                        // REQUIRED
+		iana.EC2KeyParameterX:   coordBytes(pk.Curve, pk.X), // REQUIRED
+		iana.EC2KeyParameterY:   coordBytes(pk.Curve, pk.Y), // REQUIRED
 	}, nil
 }
 
@@ -122,14 +123,23 @@ func keyToPublic(pk key.Key) (*goecdsa.PublicKey, error) {
 		if err != nil {
 			return nil, err
 		}
-		compressed := make([]byte, 1+len(x))
+		// SEC1 compressed point: the x coordinate left-padded to the curve size
+		size := (curve.Params().BitSize + 7) / 8
+		x = bytes.TrimLeft(x, "\x00")
+		if len(x) > size {
+			return nil, fmt.Errorf("cose/key/ecdsa: KeyToPublic: invalid parameter x")
+		}
+		compressed := make([]byte, 1+size)
 		if boolY {
 			compressed[0] = 0x03
 		} else {
 			compressed[0] = 0x02
 		}
-		copy(compressed[1:], x)
+		copy(compressed[1+size-len(x):], x)
 		ix, iy = elliptic.UnmarshalCompressed(curve, compressed)
+		if ix == nil {
+			return nil, fmt.Errorf("cose/key/ecdsa: KeyToPublic: (x, y) not on the curve")
+		}
 	}
 
 	if !curve.IsOnCurve(ix, iy) {
@@ -274,17 +284,17 @@ func ToPublicKey(k key.Key) (key.Key, error) {
 
 	curve, _ := getCurve(k.Alg())
 	ix, iy := curve.ScalarBaseMult(d)
-	x := ix.Bytes()
-	y := iy.Bytes()
+	x := coordBytes(curve, ix)
+	y := coordBytes(curve, iy)
 
 	if k.Has(iana.EC2KeyParameterX) {
 		x2, _ := k.GetBytes(iana.EC2KeyParameterX)
-		if !bytes.Equal(x, x2) {
+		if os2ip(x2).Cmp(ix) != 0 {
 			return nil, fmt.Errorf(`cose/key/ecdsa: ToPublicKey: parameter x mismatch`)
 		}
 
 		y2, err := k.GetBytes(iana.EC2KeyParameterY)
-		if err == nil && !bytes.Equal(y, y2) {
+		if err == nil && os2ip(y2).Cmp(iy) != 0 {
 			return nil, fmt.Errorf(`cose/key/ecdsa: ToPublicKey: parameter y mismatch`)
 		}
 	}
@@ -448,6 +458,12 @@ func i2osp(x *big.Int, buf []byte) error {
 	}
 	x.FillBytes(buf)
 	return nil
+}
+
+// coordBytes returns a curve coordinate as a fixed-length octet string,
+// leading zero octets preserved, as RFC 9053 section 7.1.1 requires.
+func coordBytes(curve elliptic.Curve, v *big.Int) []byte {
+	return v.FillBytes(make([]byte, (curve.Params().BitSize+7)/8))
 }
 
 // Reference: https://datatracker.ietf.org/doc/html/rfc8017#section-4.2
